@@ -19,8 +19,8 @@ Proof.
   - intro H. destruct (Qeq_bool x 0) eqn:E; [|reflexivity]. apply Qeq_bool_iff in E. contradiction.
 Qed.
 
-Lemma snap_lt1 : snap_factor < 1. Proof. reflexivity. Qed.
-Lemma snap_pos : 0 < snap_factor. Proof. reflexivity. Qed.
+Lemma snap_lt1 : snap_factor < 1. Proof. apply gen_snap_factor_ok. Qed.
+Lemma snap_pos : 0 < snap_factor. Proof. destruct gen_snap_factor_ok as [L _]. lra. Qed.
 
 Lemma Qabs_nz x : ~ x == 0 -> 0 < Qabs x.
 Proof.
@@ -61,13 +61,13 @@ Lemma order_of_eq x k : pow10 k <= Qabs x -> Qabs x < pow10 (k + 1) * snap_facto
 Proof.
   intros L U. pose proof (pow10_pos (k + 1)) as P. pose proof snap_lt1.
   assert (U' : Qabs x < pow10 (k + 1)) by nra.
-  unfold order_of. rewrite (ord_unique x k L U').
+  unfold order_of. cbv zeta. rewrite ?gen_snap_next_eq, ?gen_snap_bump_eq, (ord_unique x k L U').
   destruct (Qle_bool (pow10 (k + 1) * snap_factor) (Qabs x)) eqn:E; [|reflexivity].
   apply Qle_bool_iff in E. lra.
 Qed.
 
 Lemma order_of_cases x : order_of ord x = ord x \/ order_of ord x = (ord x + 1)%Z.
-Proof. unfold order_of. destruct (Qle_bool _ _); auto. Qed.
+Proof. unfold order_of. cbv zeta. rewrite ?gen_snap_bump_eq. destruct (Qle_bool _ _); auto. Qed.
 
 Lemma order_of_exact x : ~ x == 0 -> Qabs x < pow10 (ord x + 1) * snap_factor -> order_of ord x = ord x.
 Proof. intros Hx U. destruct (Hord x Hx) as [L _]. apply order_of_eq; assumption. Qed.
@@ -114,8 +114,8 @@ Proof.
   (* compute the model *)
   unfold core, round_values. rewrite Hm.
   assert (Z1 : is_zero e = false) by (apply is_zero_false; exact Hez). rewrite Z1.
-  fold n oe B Re Rv.
-  unfold find_decimals. rewrite Hm. fold n.
+  rewrite gen_back_off_err_eq. fold n oe B Re Rv.
+  unfold find_decimals. rewrite Hm, gen_decimals_eq. fold n.
   assert (Z2 : is_zero (conv ex Re) = false) by (apply is_zero_false; exact Hcez). rewrite Z2, Z2, Hoo.
   replace (Z.max 0 (- (oe + cb - k) + n - 1)) with d by (unfold d, p; lia).
   eexists. split; [reflexivity|].
@@ -165,8 +165,8 @@ Proof.
   assert (Hoo : order_of ord (conv ex Rv) = (ov + cb - k)%Z) by (apply order_of_eq; assumption).
   unfold core, round_values. rewrite Hm.
   assert (Z1 : is_zero v = false) by (apply is_zero_false; exact Hvz). rewrite Z1.
-  fold n ov B Re Rv.
-  unfold find_decimals. rewrite Hm. fold n.
+  rewrite gen_back_off_val_eq. fold n ov B Re Rv.
+  unfold find_decimals. rewrite Hm, gen_decimals_eq. fold n.
   assert (Z2 : is_zero (conv ex Rv) = false) by (apply is_zero_false; exact Hcvz). rewrite Z2, Z2, Hoo.
   replace (Z.max 0 (- (ov + cb - k) + n - 1)) with d by (unfold d, p; lia).
   eexists. split; [reflexivity|].
@@ -199,7 +199,7 @@ Qed.
 Lemma order_of_conv ex x : ~ x == 0 -> order_of ord (conv ex x) = (order_of ord x - expo ex)%Z.
 Proof.
   intro Hx. destruct ex as [k|]; unfold conv, expo; [|lia].
-  unfold order_of. rewrite (ord_scale x k Hx). pose proof (pow10_pos k) as Pk.
+  unfold order_of. cbv zeta. rewrite ?gen_snap_next_eq, ?gen_snap_bump_eq, (ord_scale x k Hx). pose proof (pow10_pos k) as Pk.
   rewrite Qabs_div_pos by exact Pk.
   replace (ord x - k + 1)%Z with (ord x + 1 - k)%Z by lia.
   destruct (Qle_bool (pow10 (ord x + 1) * snap_factor) (Qabs x)) eqn:E1;
@@ -243,7 +243,7 @@ Proof.
   intros Hn Hm Hvz He. destruct Hrd as (Hrv & Hre & Hfv & Hfe).
   unfold core, round_values. rewrite Hm.
   assert (Z1 : is_zero e = true) by (apply is_zero_true; exact He). rewrite Z1.
-  unfold find_decimals. rewrite Hm, (conv_zero ex e He), (conv_nz ex v Hvz), (order_of_conv ex v Hvz).
+  unfold find_decimals. rewrite Hm, gen_decimals_eq, (conv_zero ex e He), (conv_nz ex v Hvz), (order_of_conv ex v Hvz).
   eexists. split; [reflexivity|]. cbn [o_bare o_err o_exp o_latex o_dec].
   repeat (split; [reflexivity|]).
   split; [f_equal; lia|].
@@ -264,7 +264,7 @@ Proof.
   unfold core, round_values. rewrite Hm.
   assert (Z1 : is_zero v = true) by (apply is_zero_true; exact Hv). rewrite Z1.
   assert (Z2 : is_zero e = false) by (apply is_zero_false; exact Hez).
-  unfold find_decimals. rewrite Hm, (conv_zero ex v Hv), (conv_nz ex e Hez), (order_of_conv ex e Hez), Z2.
+  unfold find_decimals. rewrite Hm, gen_decimals_eq, (conv_zero ex v Hv), (conv_nz ex e Hez), (order_of_conv ex e Hez), Z2.
   eexists. split; [reflexivity|]. cbn [o_bare o_err o_val o_exp o_latex o_dec].
   split; [reflexivity|].
   split.
